@@ -134,9 +134,12 @@ def check_container(kind, elem):
     return check_type(spec)
 
 
+GRAMMAR = {"quick": "thorough", "thorough": "deep"}  # the term grammars are cheap: quick already uses the larger one
+
+
 def run(tier: str, seed: int) -> Result:
     col = Collector()
-    specs = T.type_specs(tier)
+    specs = T.type_specs(GRAMMAR[tier])
     n = 0
     nontriv = 0
     for s in specs:
